@@ -858,3 +858,10 @@ func constantInt64(k *types.Const) (int64, bool) {
 	}
 	return constant.Int64Val(v)
 }
+
+func constStringVal(k *types.Const) string {
+	if k.Val().Kind() != constant.String {
+		return ""
+	}
+	return constant.StringVal(k.Val())
+}
